@@ -237,7 +237,7 @@ def check_wiring(ctx, w):
     want = [([('T(_stringtable)', True)], '_stringtable'),
             ([('T(_stringtable)', False), expr.CP(expr.spec_cond('table_offset is not None'), True)], '_stringtable'),
             ([('T(_stringtable)', False), expr.CP(expr.spec_cond('table_offset is not None'), False)], '_stringtable')]
-    ctx.ob('W-WIRE', f.construct, 'selection order: given table, DT_STRTAB, .dynstr', seq == want, got=seq, expected=want)
+    ctx.ob('W-WIRE', f.construct, 'selection order: given table, DT_STRTAB, .dynstr', expr.rows(seq) == expr.rows(want), got=seq, expected=want)
     tr = expr.assign_trace(f.node, env)
     ctx.ob('W-WIRE', f.construct, 'DT_STRTAB table / .dynstr fallback',
            tr.get('self._stringtable') == [('=', '_DynamicStringTable(_stream,table_offset)'), ('=', "get_section_by_name(elffile,'.dynstr')")],
